@@ -27,7 +27,8 @@ at least 2 threads; distinct = hash of (pool, history).",
     worker,
     replay,
     exh: None,
-    totality: false,
+    // a call that hangs or aborts although the same call returned before is not "byte-identical"
+    totality: true,
     aggregate: None,
 };
 
